@@ -55,14 +55,6 @@ Fixpoint rlog_from (s : store) (ops : list rop) : list (Z * bytes * bytes) :=
   end.
 Definition rlog (ops : list rop) := rlog_from ∅ ops.
 
-(** Exact reference answers, from the log alone. *)
-Definition spec_rget (l : list (Z * bytes * bytes)) (e : Z) (p : bytes) : list bytes :=
-  omap (fun x => let '(e', p', v) := x in
-                 if (e' =? e) && bytes_eqb p' p then Some v else None) l.
-Definition spec_rlist (l : list (Z * bytes * bytes)) (e : Z) : list bytes :=
-  omap (fun x => let '(e', p', _) := x in
-                 if e' =? e then Some (rep_id e' p') else None) l.
-
 (** Observables of the correspondence check: after every op, for the
     history's pools of epochs and peers, every listing and getter. *)
 Definition robserve (q : list Z * list bytes) (s : store) (r : val) : val :=
